@@ -45,7 +45,10 @@ std::vector<unsigned long> gen_seeds ()
 }
 
 struct AB { double a, b; };
-const AB RANGES[] = {{0, 1}, {-1, 1}, {1, -1}, {5, 5}, {0, 0}, {-3, -7}, {1e30, 2e30}, {-1e-40, 1e-40}, {0, 1.4e-45}, {-1.5e38, 1.5e38}, {-0.0, 0.0}, {2, 2.0000002384185791}};
+const AB RANGES[] = {{0, 1}, {-1, 1}, {1, -1}, {5, 5}, {0, 0}, {-3, -7}, {1e30, 2e30}, {-1e-40, 1e-40}, {0, 1.4e-45}, {-1.5e38, 1.5e38}, {-0.0, 0.0}, {2, 2.0000002384185791},
+                     // finite intervals whose WIDTH b-a is not representable: the result must still lie between a and b
+                     {-3.4028234663852886e38, 3.4028234663852886e38}, {-3e38, 3e38},
+                     {-1.7976931348623157e308, 1.7976931348623157e308}, {-1e308, 1.5e308}};
 
 template <class T> bool in_range (T got, T a, T b)
 {
@@ -188,7 +191,8 @@ void c18_generator_stages ()
                         default:
                         {
                             const AB& ab = RANGES[(k / 4) % NR];
-                            float     lo = (float) ab.a, hi = (float) ab.b;
+                            const double FM = 3.4028234663852886e38; // double-only ranges are clamped to +-FLT_MAX
+                            float     lo = (float) std::max (-FM, std::min (FM, ab.a)), hi = (float) std::max (-FM, std::min (FM, ab.b));
                             float     a = g1.nextf (lo, hi), b = g2.nextf (lo, hi);
                             if (lo > hi) ++c_agtb;
                             if (lo == hi) ++c_aeqb;
